@@ -422,6 +422,54 @@ def make(n: int) -> Box:
 	return Box(inner.m)
 '''),
 ]
+# a list-returning method of a user class spelled like a dict method; a type variable spelled without the conventional T
+LEDGER = '''class Ledger:
+	rows_: list[int]
+
+	def __init__(self) -> None:
+		self.rows_ = [1, 2]
+
+	def @X@(self) -> list[int]:
+		return self.rows_
+
+
+def total(ledger: Ledger) -> int:
+	t = 0
+	for row in ledger.@X@():
+		t = t + row
+	doubled = [row2 * 2 for row2 in ledger.@X@()]
+	return t + len(doubled)
+'''
+STACK = '''from typing import Generic, TypeVar
+
+@X@ = TypeVar('@X@')
+
+
+class Stack(Generic[@X@]):
+	items: list[@X@]
+
+	def __init__(self) -> None:
+		self.items = []
+
+	def push(self, item: @X@) -> None:
+		self.items.append(item)
+
+	def top(self) -> @X@:
+		return self.items[0]
+
+
+class IntStack(Stack[int]):
+	def total(self) -> int:
+		return self.top() + 1
+
+
+def use(n: int) -> int:
+	s = Stack[int]()
+	s.push(n)
+	return s.top()
+'''
+TEMPLATES += [('values', 'ledger_rows', LEDGER), ('items', 'ledger_rows', LEDGER), ('keys', 'ledger_rows', LEDGER),
+	('Elem', 'T_Elem', STACK), ('K', 'T_Key', STACK), ('item_t', 'TItem', STACK)]
 
 
 def check_template(acc: Acc, colliding: str, fresh: str, template: str) -> None:
